@@ -1501,6 +1501,14 @@ def install_loop_lemmas(pr, crates):
             if cond[0] != "discr":
                 continue
             inner = strip_ref(cond[1])
+            some_val = 1
+            # `data.get(i).ok_or(e)?`: the Continue edge of the `?` is the Some edge of the get
+            if inner[0] == "call" and inner[1] == "core::ops::try_trait::Try::branch" and inner[2]:
+                a_ = strip_ref(inner[2][0])
+                if a_[0] == "call" and a_[1] in ("core::option::Option::<T>::ok_or", "core::option::Option::<T>::ok_or_else") and a_[2]:
+                    inner, some_val = strip_ref(a_[2][0]), 0
+                elif a_[0] == "call" and a_[1].endswith("<impl [T]>::get"):
+                    inner, some_val = a_, 0
             if not (inner[0] == "call" and inner[1].endswith("<impl [T]>::get") and len(inner[2]) == 2):
                 continue
             ix = strip_ref(inner[2][1])
@@ -1511,7 +1519,7 @@ def install_loop_lemmas(pr, crates):
                 continue
             some_edge = None
             for v, tb in t["targets"]:
-                if v == 1:
+                if v == some_val:
                     some_edge = tb
             if some_edge is None:
                 continue
